@@ -80,6 +80,53 @@ def impl_decode(seq):
     return out, fail
 
 
+def _outcome(mido, seq):
+    try:
+        return 'ok ' + msgs.canon_msg(mido.Message.from_bytes(seq))
+    except Exception as e:      # noqa: BLE001
+        return 'err ' + exc_name(e)
+
+
+def container_cases():
+    """Sequences of integers (or floats) that are not lists: typed arrays, cast memoryviews, ctypes arrays, ranges (containers
+    that can be indexed AND sliced: a deque cannot be sliced and from_bytes answers TypeError for it, which the property allows).
+    from_bytes treats a sequence by its ITEMS: the outcome is the one of list(sequence).  (The raw memory of a typed array
+    of wider items can look like a message although its items do not.)"""
+    import array
+    import collections
+    import ctypes
+    import struct
+    out = []
+    for code, items in (('H', [0x05c0]), ('H', [0x3c90, 0x0040]), ('I', [0xf7020100 | 0xf0]), ('I', [int.from_bytes(bytes([0xf0, 1, 2, 0xf7]), 'little')]),
+                        ('h', [0x05c0]), ('B', [0x90, 60, 64]), ('B', [0xf0, 1, 0xf7]), ('b', [1, 2, 3]), ('L', [0x90]), ('Q', [0xf8]),
+                        ('f', [struct.unpack('<f', bytes([0xf0, 1, 2, 0xf7]))[0]]), ('d', [144.0, 60.0, 64.0])):
+        try:
+            out.append(('array(%r)' % code, array.array(code, items)))
+        except (OverflowError, TypeError, ValueError):
+            pass
+    out.append(('memoryview cast H', memoryview(bytes([0xc0, 5])).cast('H')))
+    out.append(('memoryview cast I', memoryview(bytes([0xf0, 1, 2, 0xf7])).cast('I')))
+    out.append(('memoryview', memoryview(bytes([0x90, 60, 64]))))
+    out.append(('ctypes c_uint16 array', (ctypes.c_uint16 * 1)(0x05c0)))
+    out.append(('ctypes c_ubyte array', (ctypes.c_ubyte * 3)(0x90, 60, 64)))
+    out.append(('range', range(0x90, 0x93)))
+    out.append(('tuple', (0xf8,)))
+    return out
+
+
+def container_fail():
+    import mido
+    for what, c in container_cases():
+        try:
+            items = list(c)
+        except Exception:      # noqa: BLE001
+            continue
+        a, b = _outcome(mido, c), _outcome(mido, items)
+        if a != b and not (a.startswith('err') and b.startswith('err')):
+            return f'from_bytes({what} with items {items!r}) gives {a}; the list of its items gives {b}'
+    return None
+
+
 def _again_after_caller_changed(mido, seq, m, out):
     """The message handed out belongs to the caller: what the caller does to it must not show in a later decode of the
     same bytes (through from_bytes or from_hex)."""
@@ -100,6 +147,19 @@ def _again_after_caller_changed(mido, seq, m, out):
         if out2 != out or m2.time != 0 or m2 is m:
             return (f'after the caller changed the message returned for {seq2!r}, decoding the same bytes again gives {m2!r} '
                     f'(first time: {out[3:]}, time 0)')
+        if all(isinstance(x, int) and not isinstance(x, bool) and 0 <= x <= 255 for x in seq2) and len(seq2) >= 2:
+            # the caller's buffer, reused: the same list / bytearray object, overwritten in place at the same length, is
+            # decoded for what it holds NOW
+            for mk in (list, bytearray):
+                buf = mk(seq2)
+                mido.Message.from_bytes(buf)
+                for pos, val in ((1, 200), (0, 5), (len(buf) - 1, (buf[-1] + 1) % 128 if seq2[0] != 0xf0 else 0x11), (1, (buf[1] + 3) % 128)):
+                    buf[pos] = val
+                    now = _outcome(mido, buf)
+                    fresh = _outcome(mido, mk(bytes(buf) if mk is bytearray else list(buf)))
+                    if now != fresh:
+                        return (f'the buffer {list(seq2)!r} was decoded, then overwritten in place to {list(buf)!r} and decoded again (same '
+                                f'{mk.__name__} object): {now}; a fresh object with those bytes gives {fresh}')
         if all(isinstance(x, int) and not isinstance(x, bool) for x in seq2):
             m3 = mido.Message.from_hex(''.join('%02X' % x for x in seq2))
             if 'ok ' + msgs.canon_msg(m3) != out or m3.time != 0:
@@ -285,6 +345,11 @@ def run(ck):
     wf_model = ck.driver.run(wf_req)
     wf_ref = ['1' if msgs.decode_ref(s) is not None else '0' for s in ints]
     ck.compare('wellformed-grammar', wf_req, wf_ref, wf_model)
+    f = container_fail()
+    ck.evaluations += len(container_cases())
+    ck.count('containers', len(container_cases()))
+    if f:
+        ck.oracle_fail({'containers': True}, f)
     # from_hex
     texts = gen_hex(ck)
     hres = [r for part in pool_map(_hex_chunk, list(chunks(texts, 2000))) for r in part]
@@ -317,6 +382,8 @@ def run(ck):
 
 
 def oracle(case):
+    if 'containers' in case:
+        return container_fail()
     if 'hex' in case:
         return impl_hex(case['hex'])[1]
     return impl_decode(eval(case['seq']))[1]
